@@ -388,10 +388,26 @@ func (sp *listSpec) selectorFor(id int, byPayload bool) (any, bool) {
 	for _, n := range names {
 		f := s.Elem().FieldByName(n)
 		iv := src.FieldByName(n)
-		if !f.IsValid() || f.Type() != iv.Type() {
+		if !f.IsValid() {
 			return nil, false
 		}
-		f.Set(iv)
+		switch {
+		case f.Type() == iv.Type():
+			f.Set(iv)
+		case f.Kind() == reflect.Ptr && iv.Kind() == reflect.Ptr && iv.Elem().Type().ConvertibleTo(f.Type().Elem()) && iv.Elem().Kind() == f.Type().Elem().Kind():
+			// the selectors declare the field with another named type of the same kind (the data model is not
+			// consistent here): the selector still means "the item whose field has this value"
+			p := reflect.New(f.Type().Elem())
+			p.Elem().Set(iv.Elem().Convert(f.Type().Elem()))
+			f.Set(p)
+		case f.Kind() == reflect.Slice && iv.Kind() == reflect.Ptr && iv.Elem().Type().ConvertibleTo(f.Type().Elem()) && iv.Elem().Kind() == f.Type().Elem().Kind():
+			// a list-valued selector field: "any of these values"; one value given
+			sl := reflect.MakeSlice(f.Type(), 1, 1)
+			sl.Index(0).Set(iv.Elem().Convert(f.Type().Elem()))
+			f.Set(sl)
+		default:
+			return nil, false
+		}
 		set++
 	}
 	return s.Interface(), set > 0
